@@ -8,7 +8,7 @@
    [reachable m]: m is the state after some history from a fresh wheel (at any position)
    or a fresh heap. *)
 From Coq Require Import ZArith List Bool.
-From FV Require Import Generated.Consts C05.Model C05.Spec C05.Machine C06.Proofs.
+From FV Require Import Generated.Consts C05.Model C05.Spec C05.Machine C06.Proofs C06.Others.
 Import ListNotations.
 Open Scope Z_scope.
 
@@ -61,6 +61,19 @@ Theorem c06_cancel_false_inert : forall m id,
   mem id (srefer m) = false -> step m (Cancel id) = (m, OBool false false).
 Proof. exact cancel_false_inert. Qed.
 Print Assumptions c06_cancel_false_inert.
+
+(* "... and disturbs no other timer": a successful Cancel of timer i changes nothing for
+   the other timers.  Compare, from any reachable state, the run that starts with Cancel i
+   and the run that does not, under the SAME continuation (any list of API calls and
+   worker steps): both hand out the same ids, give the same Cancel / IsScheduled answers
+   for every other id, and each tick step delivers the same multiset of (id, due) pairs
+   apart from those of i (each delivery list is in due order by c05_*_order).  [oth_allc]
+   is that position-wise relation (C06/Others.v). *)
+Theorem c06_others_undisturbed : forall m i ops,
+  reachable m -> mem i (srefer m) = true ->
+  oth_allc i ops (snd (run (fst (step m (Cancel i))) ops)) (snd (run m ops)).
+Proof. exact others_undisturbed. Qed.
+Print Assumptions c06_others_undisturbed.
 
 (* "no such ordering crashes or corrupts the scheduler": in every reachable state the
    worker never links a node that is linked already (the panic of bucket.addNode / the
@@ -118,6 +131,12 @@ Example c06_example_expiry_race :
   snd (run (init_wheel 1000 0) [Start 1; Start 1; HandleAdd; HandleAdd; Cancel 1; Pass 1; Tick; HandleDel; Size])
   = [OId false 1; OId false 2; OFlag true; OFlag true; OBool false true; ONone; ODeliv [(2, 1)]; OFlag true; ONum 0].
 Proof. vm_compute. reflexivity. Qed.
+
+Example c06_example_others :
+  oth_allc 1 [HandleAdd; HandleAdd; Pass 3; Tick; IsSched 2; Cancel 2]
+    (snd (run (fst (step (fst (run (init_heap 0) [Start 2; Start 3])) (Cancel 1))) [HandleAdd; HandleAdd; Pass 3; Tick; IsSched 2; Cancel 2]))
+    (snd (run (fst (run (init_heap 0) [Start 2; Start 3])) [HandleAdd; HandleAdd; Pass 3; Tick; IsSched 2; Cancel 2])).
+Proof. apply c06_others_undisturbed; [constructor|reflexivity]. Qed.
 
 Example c06_example_reachable :
   reachable (fst (run (init_wheel 1000 0) [Start 1; HandleAdd])) /\
